@@ -154,3 +154,34 @@ Definition tfl_add_params (in1 in2 out : dyadic) (left_shift : Z) : (Z * Z) * (Z
    and quotient are evaluated in float (TFLite), 53 when in double (TFLite Micro) *)
 Definition tfl_mul_params (p : Z) (in1 in2 out : dyadic) : Z * Z :=
   tfl_quantize_multiplier (fl_div p (fl_mul p in1 in2) out).
+
+(* ---------------------------------------------------------------------------------------- *)
+(* weight_compressor._prepare_scale_and_bias: the per-channel effective scale handed to           *)
+(* quantise_scale / reduced_quantise_scale, and what is packed into the 10-byte scale record.     *)
+(*   uint8 or (original) FullyConnected: np.double(ifm_scale * weight_scale) / np.double(ofm_scale)  *)
+(*        -- the product is evaluated in binary32 (pprod = 24)                                    *)
+(*   int8 / int16 otherwise:  (np.double(ifm_scale) * np.double(weight_scale)) / np.double(ofm_scale) *)
+(*        -- pprod = 53                                                                           *)
+Definition conv_effective_scale (pprod : Z) (ifm w ofm : dyadic) : dyadic :=
+  fl_div 53 (fl_mul pprod ifm w) ofm.
+
+(* reduced: int16 IFM with an int64 bias *)
+Definition conv_packed_scale (pprod : Z) (reduced : bool) (ifm w ofm : dyadic) : Z * Z :=
+  let x := conv_effective_scale pprod ifm w ofm in
+  if reduced then r_scale (dm x) (de x) else q_scale (dm x) (de x).
+
+(* TFLite reference (kernel_util.cc).  CONV_2D / DEPTHWISE_CONV_2D int8, int16, per channel
+   (PopulateConvolutionQuantizationParams):
+     effective_output_scale = static_cast<double>(input_scale) * filter_scale / static_cast<double>(output_scale)
+   uint8 (legacy) and FULLY_CONNECTED (GetQuantizedConvolutionMultipler):
+     input_product_scale = static_cast<double>(input->params.scale * filter->params.scale)   -- float product
+     multiplier = input_product_scale / static_cast<double>(output->params.scale)
+   each then through QuantizeMultiplier.  The same two expressions, so pprod selects the rule. *)
+Definition tfl_conv_params (pprod : Z) (ifm w ofm : dyadic) : Z * Z :=
+  tfl_quantize_multiplier (fl_div 53 (fl_mul pprod ifm w) ofm).
+
+(* MultiplyByQuantizedMultiplier(int64_t x, ...) of the int16 kernels reduces the multiplier at run time:
+     reduced_multiplier = (quantized_multiplier < 0x7FFF0000) ? ((quantized_multiplier + (1 << 15)) >> 16) : 0x7FFF
+     total_shift = 15 - shift *)
+Definition tfl_reduce (t : Z * Z) : Z * Z :=
+  ((if fst t <? 32767 * 65536 then (fst t + 32768) / 65536 else 32767), 15 - snd t).
